@@ -151,6 +151,13 @@ func (m *xdsResourceManager) Get(ctx context.Context, rType xdsresource.Resource
 
 	// Fetch resource via client and wait for the update
 	m.mu.Lock()
+	// the resource may have been delivered between the unlocked miss and this lock
+	if c, ok := m.cache[rType]; ok {
+		if r, ok := c[rName]; ok {
+			m.mu.Unlock()
+			return r, nil
+		}
+	}
 	// Setup channel for this resource
 	if _, ok := m.notifierMap[rType]; !ok {
 		m.notifierMap[rType] = make(map[string]*notifier)
